@@ -51,6 +51,17 @@ def big_edit_cases(tier, seed):
                                                ([{"op": "ins", "off": size // 2 + rnd.randrange(size // 4), "n": 0, "m": rnd.choice([1, 100])}] if rnd.random() < 0.5 else [])}})
         cases.append({"class": "identical", "bounded": True, "blk": 0, "s2": 16,
                       "gen": {"kind": "edits", "seed": rnd.randrange(1 << 30), "size": size, "edits": []}})
+        # deletions of arbitrary length: a large part of the file goes away at the front, in the middle, at the end;
+        # what is left of the receiver's copy (at lower offsets now) must still match
+        if size >= 5000:
+            for where in ("front", "middle", "end", "two"):
+                n = rnd.choice([size // 2 + 13, size // 4 + 1, size // 3])
+                off = {"front": 0, "middle": rnd.randrange(1, size - n), "end": size - n, "two": rnd.randrange(1, size // 8)}[where]
+                ed = [{"op": "del", "off": off, "n": n if where != "two" else size // 5, "m": 0}]
+                if where == "two":
+                    ed.append({"op": "del", "off": size // 2 + rnd.randrange(size // 8), "n": size // 6, "m": 0})
+                cases.append({"class": "big-deletion-" + where, "bounded": True, "blk": 0, "s2": 16,
+                              "gen": {"kind": "edits", "seed": rnd.randrange(1 << 30), "size": size, "edits": ed}})
     # strong checksums truncated the way other protocol-27 generators announce them (2 and 8 bytes instead of 16):
     # matching must work just the same
     for s2 in (2, 8):
@@ -67,7 +78,13 @@ def big_edit_cases(tier, seed):
         cases.append({"class": "refblk-edits", "bounded": True, "blk": blk, "s2": 16,
                       "gen": {"kind": "edits", "seed": rnd.randrange(1 << 30), "size": size,
                               "edits": [{"op": "rep", "off": off, "n": rnd.choice([0, 1, blk + 1]), "m": rnd.choice([0, 1, 9, blk - 1])}]}})
-    return cases
+    # "with the real generator's block sizes": the same cases once more, the request (sum head, block checksums) now
+    # being what the REAL generator of internal/receiver sends for that basis and that new length
+    real = []
+    for c in cases:
+        if c["blk"] == 0 and c["s2"] == 16 and c["gen"]["size"] > 0 and (c["class"].startswith("big-deletion") or rnd.random() < (0.5 if tier == "quick" else 1.0)):
+            real.append(dict(c, realgen=True, **{"class": c["class"] + "+realgen"}))
+    return cases + real
 
 
 def check(w):
@@ -124,6 +141,9 @@ def check(w):
     if nrej != {c["id"] for c in bad}:
         raise Broken("negative control: over-budget traces accepted by DeltaTrace")
     allobs = obs + bobs
+    nreal = sum(1 for o in bobs if o.get("class", "").endswith("+realgen") and o["id"] not in brej and o["blk"] >= 700 and o["count"] > 0)
+    if nreal < 20:
+        raise Broken("vacuous run: only %d accepted cases used a request captured from the real generator" % nreal)
     nontrivial = sum(1 for o in allobs if o["nedits"] > 0 and any(t["k"] in ("ref", "refrun") for t in o["toks"]))
     samples = []
     for o in ([o for o in obs if o["nedits"] == 2][:2] + bobs[:2]):
@@ -136,6 +156,7 @@ def check(w):
         "design_constants": {"MaxN": N, "MaxBlk": B, "MaxEdits": E, "MaxDel": D, "MaxIns": I},
         "replayed_scenarios": {"tlc_edit_scripts": len(base), "replayed_incl_inflated": len(scen), "scales": [1] + [k for k, _ in scales],
                                "end_to_end_sizes": len(big), "of_which_in_multi_file_sessions": len(big2), "max_file_bytes": max(o["tlen"] for o in bobs)},
+        "requests_from_real_generator": nreal,
         "action_coverage": cov,
         "evaluations": len(scen) + len(big), "distinct_nontrivial": nontrivial,
         "rule": "a case is one edited file answered by the real sender; non-trivial = at least one edit and at least one block reference in the answer",
@@ -144,5 +165,5 @@ def check(w):
     }
     v.assumptions = ["high-entropy data has no accidental block matches (random bytes, distinct symbols)",
                      "literal bound = inserted + slack + 2*(block-1) per edit (DeltaOps!LiteralBoundOf), checked by TLC on the greedy model",
-                     "block checksums are computed by the reference receiver with the generator's block-size rule (max(700, floor(sqrt(len))))"]
+                     "block checksums are computed by the reference receiver with the generator's block-size rule (max(700, floor(sqrt(len)))); the +realgen cases use the request the real generator sent in a receiver session of its own (same seed)"]
     return v.finish()
